@@ -171,6 +171,14 @@ def run(ctx):
         strict = (not wf) or rng.random() < 0.5
         py = script_rt(cmds, strict)
         cases.append(('script_rt %s' % _cmds_str(cmds), py, wf and len(cmds) > 0))
+    # the witnesses of the listed findings are always replayed
+    for f in ctx.known:
+        w = f.get('witness', {}).get('op', '')
+        if w.startswith('script_rt '):
+            wc = []
+            for tok in w.split(' ')[1].split(','):
+                wc.append(int(tok[1:], 16) if tok[0] == 'o' else bytes.fromhex(tok[1:]))
+            cases.append((w, script_rt(wc, True), True))
     # fixed corpus: standard shapes
     h20, h32 = bytes(range(20)), bytes(range(32))
     pk = bytes.fromhex('0279be667ef9dcbbac55a06295ce870b07029bfcdb2dce28d959f2815b16f81798')
